@@ -17,7 +17,7 @@ ASSUMPTIONS = [
     "pairs of library executions are related to each other (no external reference needed); the exact tableau is used only to decide well-posedness and to size tolerances",
     "currents are summed as physical first->second currents: a zeroed linear source is reported in the passive convention, an active one in the generator convention (DESIGN 4.1)",
 ]
-N_NET = {'quick': 1800, 'thorough': 30000}
+N_NET = {'quick': 5400, 'thorough': 30000}
 
 
 def generate(tier, seed, shard, nshards):
